@@ -13,6 +13,7 @@ PID = "C20"
 TITLE = "Switching the session keyspace is applied everywhere or reported"
 LEVEL = "exploration"
 ENGINE = "sim"
+THOROUGH_SCALE = 1.0
 SERIAL = os.environ.get("VERIF_TIER") == "quick"   # heavily loaded machine: a forked pool is slower than one process
 TECHNIQUE = ("bounded exhaustive enumeration plus model-based generation (Hypothesis) of per-pool outcomes and delivery "
              "orders over the real Cluster/Session/pools/connections on a deterministic simulated network; the fake "
